@@ -39,8 +39,9 @@ UT = "src/pyhf/infer/utils.py"
 MLE = "src/pyhf/infer/mle.py"
 
 
-# R2-R6 recognise the helper structure of the pinned tree; R7 decides the same clauses end to end (see Ctx.defer)
-DEFER = [(["C06.R2", "C06.R3", "C06.R4", "C06.R5", "C06.R6"], ["C06.R7"])]
+# R2, R3, R6 recognise the helper structure of the pinned tree (who calls whom, with what); R7 decides the same clauses end
+# to end (see Ctx.defer).  R4 and R5 evaluate MORE regions than R7 does and keep their own verdict.
+DEFER = [(["C06.R2", "C06.R3", "C06.R6"], ["C06.R7"])]
 
 
 def _externals(record):
@@ -275,6 +276,8 @@ def _end_to_end(ctx, rid, repo):
         thr = (lambda mu: Fraction(0)) if forces_zero else (lambda mu: mu)
         plan = [("first call", Fraction(1), Fraction(3)), ("second call, other mu and data", Fraction(2), Fraction(1, 2)), ("third call, the second call's data list refilled in place", Fraction(2), Fraction(-1, 4) if forces_zero else Fraction(7, 2)),
                 ("fourth call, everything as in the third except the bounds", Fraction(2), Fraction(1) if not forces_zero else Fraction(-1, 3))]
+        if lower < 0 and not forces_zero:
+            plan.append(("fifth call, NEGATIVE tested value with the fitted POI below it", Fraction(-1), Fraction(-2)))
         if forces_zero:
             plan = [(l_, Fraction(0), mh) for l_, _, mh in plan]
             plan[1] = (plan[1][0], Fraction(0), Fraction(-1, 2))
@@ -317,7 +320,9 @@ def _end_to_end(ctx, rid, repo):
             for i_, (lab, mu_rep, muhat_rep) in enumerate(plan):
                 if i_ == 2:
                     data2[:] = [at("d3_0"), at("d3_1")]
-                data = data1 if i_ == 0 else data2
+                if i_ == 4:
+                    data1[:] = [at("d5_0"), at("d5_1")]
+                data = data1 if i_ in (0, 4) else data2
                 bounds = bounds_b if i_ == 3 else bounds_a
                 btag = ",".join(str(to_poly(x)) for b_ in bounds for x in b_)
                 t_ = tag(data) + "|" + btag
